@@ -26,9 +26,9 @@ pub open spec fn d2(a: u8, b: u8) -> Seq<u8> { seq![a, b] }
 pub open spec fn d3(a: u8, b: u8, c: u8) -> Seq<u8> { seq![a, b, c] }
 pub open spec fn vx_is_digit(c: u8) -> bool { 48u8 <= c && c <= 57u8 }
 pub open spec fn vx_all_digits(s: Seq<u8>) -> bool { forall|i: int| 0 <= i < s.len() ==> vx_is_digit(#[trigger] s[i]) }
-pub fn vx_bytes1(a: u8) -> (r: [u8; 1]) ensures r@ == d1(a), vx_is_digit(a) ==> vx_all_digits(r@) { proof { reveal(vx_all_digits); } let r = [a]; assert(r@ =~= seq![a]); r }
-pub fn vx_bytes2(a: u8, b: u8) -> (r: [u8; 2]) ensures r@ == d2(a, b), (vx_is_digit(a) && vx_is_digit(b)) ==> vx_all_digits(r@) { proof { reveal(vx_all_digits); } let r = [a, b]; assert(r@ =~= seq![a, b]); r }
-pub fn vx_bytes3(a: u8, b: u8, c: u8) -> (r: [u8; 3]) ensures r@ == d3(a, b, c), (vx_is_digit(a) && vx_is_digit(b) && vx_is_digit(c)) ==> vx_all_digits(r@) { proof { reveal(vx_all_digits); } let r = [a, b, c]; assert(r@ =~= seq![a, b, c]); r }
+pub fn vx_bytes1(a: u8) -> (r: [u8; 1]) ensures r@ == d1(a), vx_is_digit(a) ==> vx_all_digits(r@) { proof { reveal(vx_all_digits); reveal(d1); } let r = [a]; assert(r@ =~= seq![a]); r }
+pub fn vx_bytes2(a: u8, b: u8) -> (r: [u8; 2]) ensures r@ == d2(a, b), (vx_is_digit(a) && vx_is_digit(b)) ==> vx_all_digits(r@) { proof { reveal(vx_all_digits); reveal(d2); } let r = [a, b]; assert(r@ =~= seq![a, b]); r }
+pub fn vx_bytes3(a: u8, b: u8, c: u8) -> (r: [u8; 3]) ensures r@ == d3(a, b, c), (vx_is_digit(a) && vx_is_digit(b) && vx_is_digit(c)) ==> vx_all_digits(r@) { proof { reveal(vx_all_digits); reveal(d3); } let r = [a, b, c]; assert(r@ =~= seq![a, b, c]); r }
 
 /// verified helper used by rule R4b (comparison of a byte slice with a byte-string literal)
 pub fn vx_eq_bytes(a: &[u8], b: &[u8]) -> (r: bool)
